@@ -28,3 +28,19 @@ func claimUnit(path string) int {
 	f.WriteAt([]byte(strconv.Itoa(v+1)), 0)
 	return v
 }
+
+// setMemLimit bounds the address space of a worker (default 24 GiB, VERIF_RLIMIT_GB) so that a
+// runaway allocation ends the worker instead of the machine.
+func setMemLimit() {
+	gb := uint64(24)
+	if s := os.Getenv("VERIF_RLIMIT_GB"); s != "" {
+		if v, err := strconv.Atoi(s); err == nil && v >= 0 {
+			gb = uint64(v)
+		}
+	}
+	if gb == 0 {
+		return
+	}
+	lim := syscall.Rlimit{Cur: gb << 30, Max: gb << 30}
+	syscall.Setrlimit(syscall.RLIMIT_AS, &lim)
+}
